@@ -1,8 +1,77 @@
 /-
-C20 — property theorems (under construction; see DESIGN.md section 8).
+C20 — client library: `Client.Connect` and the message callbacks of Subscribe.
+
+Property theorems only (helper lemmas: `Proofs/Client*.lean`).  Model:
+`Model/Client.lean`; matching relation: `Spec/Match.lean` (section 4.7), via the
+finished topic-trie theorems of C06.
 -/
-import Mqtt.Model.Client
-import Mqtt.Spec.Client
+import Mqtt.Proofs.Client
+
+set_option linter.unusedSimpArgs false
 
 namespace Mqtt.Properties.C20
+open Mqtt.Iface.Broker (Pub Packet Bytes)
+open Mqtt.Iface.Client
+open Mqtt.Model.Client
+open Mqtt.Proofs.Client
+
+/-! ## (f) Connect -/
+
+/-- `Connect`, for every client state and every answer of the peer: it reports
+success exactly when the answer is a well-formed CONNACK with code 0; it
+reports `refused k` exactly when the answer is a well-formed CONNACK with code
+`k ≠ 0`; it reports another error in all remaining cases (undecodable CONNACK,
+another packet, connection closed).  Exactly one result is reported.  In every
+non-success case the state is unchanged - nothing was started, and a client
+that was not connected still rejects every API call; on success the only
+change is that the client is connected. -/
+theorem C20_connect (c : C) (a : Answer) :
+    step c (.connect a) = connect c a ∧
+    ((connect c a).2 = [.connected] ↔ ∃ sp, a = .connack sp 0) ∧
+    (∀ k, (connect c a).2 = [.refused k] ↔ k ≠ 0 ∧ ∃ sp, a = .connack sp k) ∧
+    ((connect c a).2 = [.connectErr] ↔ ¬ ∃ sp k, a = .connack sp k) ∧
+    ((connect c a).2 = [.connected] → (connect c a).1 = { c with connected := true }) ∧
+    ((connect c a).2 ≠ [.connected] → (connect c a).1 = c ∧
+      (c.connected = false → ∀ call, step (connect c a).1 (.api call) = (c, [.apiErr]))) := by
+  refine ⟨rfl, ?_⟩
+  have hapi : c.connected = false → ∀ call, step c (.api call) = (c, [.apiErr]) := by
+    intro hc call; simp [step, hc]
+  cases a with
+  | connack sp code =>
+    by_cases h0 : code = 0
+    · subst h0
+      simp [connect]
+      omega
+    · have hb : (code == 0) = false := by simpa using h0
+      simp only [connect, hb, Bool.false_eq_true, ↓reduceIte]
+      refine ⟨?_, ?_, ?_, ?_, ?_⟩
+      · simp [h0]
+      · intro k
+        constructor
+        · intro h
+          have : code = k := by simpa using h
+          subst this
+          exact ⟨h0, sp, rfl⟩
+        · rintro ⟨_, sp', h⟩
+          cases h; rfl
+      · simp
+      · simp
+      · intro _
+        exact ⟨by trivial, hapi⟩
+  | badConnack => simp [connect]; exact hapi
+  | other => simp [connect]; exact hapi
+  | close => simp [connect]; exact hapi
+
+/-- every kind of answer, on a fresh client and on a client with requests in flight -/
+example :
+    (step init (.connect (.connack true 0))).2 = [.connected] ∧
+    (step init (.connect (.connack true 0))).1.connected = true ∧
+    (step init (.connect (.connack false 5))).2 = [.refused 5] ∧
+    (step init (.connect .badConnack)).2 = [.connectErr] ∧
+    (step init (.connect .other)).2 = [.connectErr] ∧
+    (step init (.connect .close)).2 = [.connectErr] ∧
+    (runOuts init [.connect (.connack false 4), .api (.ping 1), .connect (.connack false 0), .api (.ping 2)]) =
+      [[.refused 4], [.apiErr], [.connected], [.wrote .pingreq]] := by
+  decide
+
 end Mqtt.Properties.C20
